@@ -32,6 +32,10 @@ type parinitIn struct {
 	// Init: every fan's RunInitializationSequence is called directly (what `fan init` does: delete both entries, run the
 	// sequence on a fresh controller), all released at the same instant by a spin barrier (relative start delay 0).
 	// Fresh: the case runs in a process of its own (the very first analysis of a process).
+	// CancelAt: the contexts of ALL controllers are cancelled (what SIGTERM, or any controller returning an error, does in
+	// the daemon) when the first fan's analysis has reached this point: "sweep" (100th PWM write), "settle" (first RPM read),
+	// "measure" (14th RPM read). The others are queued behind it by then.
+	CancelAt string `json:"cancel_at,omitempty"`
 	Init  bool `json:"init"`
 	Fresh bool `json:"fresh"`
 	Frd   *int             `json:"fan_response_delay"` // fanResponseDelay (default 1)
@@ -187,6 +191,36 @@ func parinitRun(ctx *Ctx, in parinitIn) parinitObs {
 		return parinitRunInit(env, in)
 	}
 	procs := make([]*startupProc, len(in.Fans))
+	var procsMu sync.Mutex
+	cancelled := false
+	if in.CancelAt != "" {
+		fired := make(chan struct{})
+		env.mu.Lock()
+		env.watchFan, env.fired = in.Fans[0].Id, fired
+		switch in.CancelAt {
+		case "sweep":
+			env.watchKind, env.watchN = "W", 100
+		case "settle":
+			env.watchKind, env.watchN = "R", 1
+		default:
+			env.watchKind, env.watchN = "R", 14
+		}
+		env.mu.Unlock()
+		go func() {
+			select {
+			case <-fired:
+			case <-time.After(100 * time.Second):
+			}
+			procsMu.Lock()
+			cancelled = true
+			for _, p := range procs {
+				if p != nil {
+					p.cancel()
+				}
+			}
+			procsMu.Unlock()
+		}()
+	}
 	var wg sync.WaitGroup
 	for i, f := range in.Fans {
 		wg.Add(1)
@@ -194,7 +228,12 @@ func parinitRun(ctx *Ctx, in parinitIn) parinitObs {
 			defer wg.Done()
 			time.Sleep(time.Duration(f.DelayMs) * time.Millisecond / time.Duration(scale))
 			p := env.launch(env.devs[f.Id], 2*time.Millisecond)
+			procsMu.Lock()
 			procs[i] = p
+			if cancelled {
+				p.cancel()
+			}
+			procsMu.Unlock()
 			p.waitFirstCycle(120 * time.Second)
 		}(i, f)
 	}
@@ -284,7 +323,8 @@ func parinitCoq(in parinitIn, obs parinitObs) string {
 	}
 	var faulty []int
 	for _, f := range in.Fans {
-		if f.Fault == "pwm-write" || f.Fault == "rpm-read" {
+		if f.Fault == "pwm-write" || f.Fault == "rpm-read" || in.CancelAt != "" {
+			// not compared with the model: injected device fault, or a start cut short by the cancelled context
 			faulty = append(faulty, f.Id)
 		}
 	}
@@ -306,6 +346,9 @@ func parinitGen(rng *Rng, par bool, variant int) (parinitIn, []string) {
 	n := rng.Range(2, 4)
 	if variant == 1 || variant == 2 {
 		n = rng.Range(3, 4)
+	}
+	if variant == 4 {
+		n = rng.Range(2, 3)
 	}
 	tags := []string{"fans=" + itoa(n)}
 	if par && in.ParAbsent {
@@ -375,6 +418,17 @@ func parinitGen(rng *Rng, par bool, variant int) (parinitIn, []string) {
 			in.Fans[i].DelayMs = rng.Pick([]int{200, 300, 600})
 		}
 		tags = append(tags, "fault-control-loop")
+	case 4:
+		// shutdown (context cancelled) while the first fan is being analysed and the others are queued behind it
+		in.Db = nil
+		for i := range in.Fans {
+			in.Fans[i].Kind = "hwmon"
+			in.Fans[i].DelayMs = rng.Pick([]int{200, 300, 600})
+		}
+		in.Fans[0].DelayMs = 0
+		in.Fans[0].SettleMs = rng.Pick([]int{1500, 3000, 6000})
+		in.CancelAt = []string{"sweep", "settle", "measure"}[rng.Intn(3)]
+		tags = append(tags, "cancel-during-"+in.CancelAt)
 	case 3:
 		// very different settle times: one slow-settling fan, fanResponseDelay 0 or 1
 		frd := rng.Intn(2)
@@ -484,7 +538,7 @@ func init() {
 			par := i%3 == 2
 			variant := 0
 			if !par && i%2 == 0 {
-				variant = 1 + special%3
+				variant = 1 + special%4
 				special++
 			}
 			in, tags := parinitGen(rng, par, variant)
